@@ -7,20 +7,20 @@ Require Import IP.Base.Bytes IP.DM.Value IP.Trav.Selector IP.Trav.Walk IP.Trav.C
 Open Scope Z_scope.
 
 (* with every control off, the controlled walk is the plain walk *)
-Theorem C15_controls_off : forall g f root s, cwalk_adv no_ctl g f None root s = walk_adv g f root s.
+Theorem C15_controls_off : forall q g f root s, cwalk_adv q no_ctl g f None root s = walk_adv q g f root s.
 Proof. exact controls_off. Qed.
 Print Assumptions C15_controls_off.
 
 (* budgets, exact form: for all graphs, selectors, fuel and budgets, R is U cut right before the first
    visit (load) for which the node (link) budget is used up, and the error is that budget's *)
-Theorem C15_budget_cut : forall g f nb lb root s,
-  cwalk_adv no_ctl g f (Some (nb, lb)) root s = cut_run nb lb (walk_adv g f root s).
+Theorem C15_budget_cut : forall q g f nb lb root s,
+  cwalk_adv q no_ctl g f (Some (nb, lb)) root s = cut_run nb lb (walk_adv q g f root s).
 Proof. exact budget_run. Qed.
 Print Assumptions C15_budget_cut.
 
-Theorem C15_node_budget : forall g f N L root s,
-  let U := walk_adv g f root s in
-  let R := cwalk_adv no_ctl g f (Some (N, L)) root s in
+Theorem C15_node_budget : forall q g f N L root s,
+  let U := walk_adv q g f root s in
+  let R := cwalk_adv q no_ctl g f (Some (N, L)) root s in
   0 <= N -> Z.of_nat (length (loads (fst U))) <= L ->
   visits (fst R) = firstn (Z.to_nat N) (visits (fst U)) /\
   (exists r, fst U = fst R ++ r) /\
@@ -29,9 +29,9 @@ Theorem C15_node_budget : forall g f N L root s,
 Proof. exact node_budget_prefix. Qed.
 Print Assumptions C15_node_budget.
 
-Theorem C15_link_budget : forall g f N L root s,
-  let U := walk_adv g f root s in
-  let R := cwalk_adv no_ctl g f (Some (N, L)) root s in
+Theorem C15_link_budget : forall q g f N L root s,
+  let U := walk_adv q g f root s in
+  let R := cwalk_adv q no_ctl g f (Some (N, L)) root s in
   0 <= L -> Z.of_nat (length (visits (fst U))) <= N ->
   loads (fst R) = firstn (Z.to_nat L) (loads (fst U)) /\
   (exists r, fst U = fst R ++ r) /\
@@ -42,27 +42,27 @@ Print Assumptions C15_link_budget.
 
 (* visit-once: if U completes, R completes, is a sub-sequence of U (so are its visits), and loads no
    link twice *)
-Theorem C15_once : forall g f root s t,
-  walk_adv g f root s = (t, OOk) ->
-  exists t', cwalk_adv once_ctl g f None root s = (t', OOk)
+Theorem C15_once : forall q g f root s t,
+  walk_adv q g f root s = (t, OOk) ->
+  exists t', cwalk_adv q once_ctl g f None root s = (t', OOk)
              /\ subseq t' t /\ subseq (visits t') (visits t) /\ NoDup (load_cids t').
 Proof. exact once_run. Qed.
 Print Assumptions C15_once.
 
 (* SkipMe: if U completes, R is U without the events beneath a skipped link (the events whose link stack
    contains a link of K); the load attempt of a skipped link itself remains *)
-Theorem C15_skip : forall g K f root s t,
-  walk_adv g f root s = (t, OOk) ->
-  cwalk_adv (skip_ctl K) g f None root s = (skip_spec K t, OOk).
+Theorem C15_skip : forall q g K f root s t,
+  walk_adv q g f root s = (t, OOk) ->
+  cwalk_adv q (skip_ctl K) g f None root s = (skip_spec K t, OOk).
 Proof. exact skip_run. Qed.
 Print Assumptions C15_skip.
 
 (* start-at: if U completes, visits the start path, and explored siblings are pairwise distinct, R is: the
    loads on the start path, then U from the first visit of the start path on *)
-Theorem C15_start_at : forall g sp f root s t,
-  walk_adv g f root s = (t, OOk) -> walk_distinct g f root s = true ->
+Theorem C15_start_at : forall q g sp f root s t,
+  walk_adv q g f root s = (t, OOk) -> walk_distinct q g f root s = true ->
   Exists (fun e => at_path (map SegS sp) e = true) t ->
-  cwalk_adv (start_ctl sp) g f None root s = (start_spec (map SegS sp) t, OOk).
+  cwalk_adv q (start_ctl sp) g f None root s = (start_spec (map SegS sp) t, OOk).
 Proof. exact start_run. Qed.
 Print Assumptions C15_start_at.
 
@@ -84,7 +84,7 @@ Print Assumptions C15_split_at_spec.
 
 (* the hypotheses above are satisfiable *)
 Theorem C15_hypotheses_satisfiable :
-  snd ex_U = OOk /\ walk_distinct ex_g 10 ex_root ex_sel = true /\
+  snd ex_U = OOk /\ walk_distinct pinned ex_g 10 ex_root ex_sel = true /\
   Exists (fun e => at_path (map SegS [[98%N]; [49%N]]) e = true) (fst ex_U).
 Proof. exact (conj (proj1 ex_U_ok) (conj ex_distinct ex_start_visited)). Qed.
 Print Assumptions C15_hypotheses_satisfiable.
